@@ -21,7 +21,7 @@ LEVEL = "exploration"
 RULE = (
     "one case = one seeded (stacking format 2a|1.9|1.9-rich-root, base history, stacking point and method, 2-8 "
     "operations among commit / merge-of-later-base-revision / base growth / third-repository work then pull|fetch|push / "
-    "new stacked clone / pack / re-open); non-trivial = the stacked repository ends up holding at least one revision of "
+    "new stacked clone / branch created under a default stacking policy / pack / re-open / final unstack, optionally under an injected error); non-trivial = the stacked repository ends up holding at least one revision of "
     "its own whose parent lives only in the fallback (the split point matters) and at least two operations touched it; "
     "distinct = distinct event-log digests of such runs"
 )
@@ -32,8 +32,10 @@ COMPONENTS = {
         "fetch/pull/push into and out of stacked repositories (RepoFetcher, StreamSource.get_stream_for_missing_keys, StreamSink)",
         "commit through WorkingTree (lightweight checkout of the stacked branch)",
         "RevisionTree iteration, iter_changes between revision trees, Repository.check()",
+        "BzrBranch.set_stacked_on_url(None) / _unstack, reconfigure.ReconfigureUnstacked",
+        "default stacking policy: ControlDir.get_config().set_default_stack_on, RepositoryAcquisitionPolicy (UseExistingRepository._add_fallback, configure_branch), clone_on_transport / sprout / create_branch_convenience + push below the hosting directory",
     ],
-    "simulated": ["disks of base, stacked, third and clone locations (SimTransport over memory transports)", "re-open (fresh objects)"],
+    "simulated": ["disks of base, stacked, third, hosting and clone locations (SimTransport over memory transports)", "re-open (fresh objects)", "transport error injected into the stacked store during unstacking"],
     "stub": ["UI", "working-tree files on local scratch disk"],
 }
 ASSUMPTIONS = [
@@ -42,12 +44,33 @@ ASSUMPTIONS = [
     "'own' revisions = keys of repository.revisions.without_fallbacks(); a parent counts as a ghost when neither the stacked repository nor its fallback has the revision",
     "the strong local statement is judged on Repository.open(stacked location), which has no fallbacks: inventories of own revisions and of their non-ghost parents must iterate there, and every entry of an own revision whose text key is not carried by any present parent must have its text there",
     "check() is run on the stacked repository with its fallback attached",
+    "unstacking is always the last operation of a run; afterwards (and after an unstack that failed under an injected error, once locks are broken) the branch is judged by what it records: stacked -> the usual oracle with its fallback, not stacked -> the whole ancestry of its tip must be readable from its own repository alone; the retry must succeed; check() is run on an unstacked repository only when every revision it holds has its ancestry locally (unstacking copies the tip's ancestry only)",
+    "branches created under a default stacking policy may come out stacked or unstacked; either way the tip must be reconstructible by the branch opened alone; a creation refused with IncompatibleRepositories / IncompatibleFormat / Unstackable*Format is not a violation",
     "a commit that breezy refuses (ghost right-hand parent in a stacked branch: 'Unable to fill in parent inventories') is not a violation of this property; the state it leaves is judged like any other",
 ]
 
 FMTS = ["2a", "2a", "2a", "1.9", "1.9-rich-root"]
 RICH = {"2a": True, "1.9": False, "1.9-rich-root": True, "pack-0.92": False, "rich-root-pack": True}
 NATIVE_COMMIT = {"2a"}
+# sources of policy-stacked branches: same rich-root kind as the hosting repository; "+b6" = that
+# repository format with the pre-stacking branch format 6 (rich-root-pack and pack-0.92 use it too)
+POLICY_SOURCES = {
+    "2a": ["2a", "2a+b6", "rich-root-pack", "1.9-rich-root"],
+    "1.9": ["1.9", "1.9+b6", "pack-0.92", "knit"],
+    "1.9-rich-root": ["1.9-rich-root", "2a", "2a+b6", "rich-root-pack"],
+}
+
+
+def policy_format(name):
+    from breezy.controldir import format_registry
+
+    if name.endswith("+b6"):
+        from breezy.bzr.branch import BzrBranchFormat6
+
+        f = format_registry.make_controldir(name[:-3])
+        f.set_branch_format(BzrBranchFormat6())
+        return f
+    return format_registry.make_controldir(name)
 
 _warmed = []
 
@@ -164,6 +187,21 @@ def generate(rng, tier, fmt=None):
             ops.append(["pack"])
         else:
             ops.append(["reopen"])
+    # stacking obtained through a default stacking policy (control.conf default_stack_on of
+    # a hosting directory with a shared repository): new branches created below it
+    if rng.random() < 0.4:
+        istack = next(i for i, o in enumerate(ops) if o[0] == "stack")
+        for n in range(rng.choice([1, 1, 2])):
+            pos = rng.randint(istack + 1, len(ops))
+            known = [o[2]["id"] for o in ops[:pos] if o[0] == "commit"]
+            rev = rng.choice(known[-4:]) if rng.random() < 0.7 else rng.choice(known)
+            ops.insert(pos, ["policy", rng.choice(["clone", "clone", "sprout", "init_push"]), rng.choice(POLICY_SOURCES[fmt]), rev, n + 1])
+    # unstacking, always last: afterwards the branch must live without any fallback
+    if rng.random() < 0.35:
+        fault = None
+        if rng.random() < 0.6:
+            fault = {"kind": "err_before", "at": rng.randint(1, 30), "count": "mut", "err": rng.choice(["transport", "connection", "enospc", "permission"])}
+        ops.append(["unstack", rng.choice(["api", "api", "reconfigure"]), fault])
     return {"fmt": fmt, "third_fmt": third_fmt, "ops": ops}
 
 
@@ -286,8 +324,210 @@ def execute(sim, plan, _scratch=None):
                         repo.fetch(src, revision_id=r.encode())
                         break
 
+    def oracle_unstacked(url, tag):
+        """The branch records no fallback: its tip and the whole non-ghost ancestry of
+        the tip must be reconstructible from its own repository alone."""
+        from breezy.branch import Branch
+
+        storesim.clear_caches()
+        mh = mh_now()
+        try:
+            b = Branch.open(url)
+            repo = b.repository
+        except Exception as e:  # noqa: BLE001
+            sim.fail("open", ["open", sig, tag, type(e).__name__], f"{tag}: branch cannot be opened: {type(e).__name__}: {e}")
+        if repo._fallback_repositories:
+            raise RuntimeError("oracle_unstacked called for a stacked branch")
+        with repo.lock_read():
+            tip = b.last_revision().decode()
+            if tip == "null:":
+                return
+            if tip not in mh.revs:
+                sim.fail("unstacked", ["unstacked", sig, tag, "unknown-tip"], f"{tag}: tip {tip} unknown")
+            anc = [r for r in mh.order if r in mh.ancestry(tip)]
+            have = set(repo.has_revisions([r.encode() for r in anc]))
+            missing = [r for r in anc if r.encode() not in have]
+            if missing:
+                sim.fail("unstacked", ["unstacked", fmt, "ancestry-missing-without-fallback"], f"{tag}: branch {url} records no stacked-on location but its repository lacks {missing} of the ancestry of its tip {tip} (own revisions {sorted(k[0].decode() for k in repo.revisions.keys())})")
+            for kind_, rid, fid, detail in storesim.dag_problems(repo, mh, anc, per_file=False):
+                sim.fail("unstacked", ["unstacked", fmt, "unreadable-without-fallback:" + kind_], f"{tag}: {rid}: {detail}")
+            tree = repo.revision_tree(tip.encode())
+            for p in mh.revs[tip]["parents"]:
+                if p in mh.revs:
+                    try:
+                        list(tree.iter_changes(repo.revision_tree(p.encode())))
+                    except Exception as e:  # noqa: BLE001
+                        sim.fail("unstacked", ["unstacked", fmt, "iter_changes:" + type(e).__name__], f"{tag}: iter_changes of tip {tip} against {p} failed: {type(e).__name__}: {e}")
+            complete = all(set(mh.ancestry(r)) & set(mh.revs) <= {x.decode() for x in repo.has_revisions([a.encode() for a in mh.ancestry(r)])} for r in (k[0].decode() for k in repo.revisions.keys()) if r in mh.revs)
+        if complete:
+            prob = storesim.check_clean(repo)
+            if prob:
+                sim.fail("check", ["check", sig, tag, prob.split(" ")[0]], f"{tag}: {prob}")
+        sim.probe("judged_unstacked")
+
+    def judge_any(url, tag):
+        """Stacked with its recorded fallback, or unstacked and complete."""
+        from breezy.branch import Branch
+
+        storesim.clear_caches()
+        try:
+            b = Branch.open(url)
+        except Exception as e:  # noqa: BLE001
+            sim.fail("open", ["open", sig, tag, type(e).__name__], f"{tag}: branch cannot be opened: {type(e).__name__}: {e}")
+        is_stacked = bool(b.repository._fallback_repositories)
+        del b
+        if is_stacked:
+            oracle(url, tag + "-tip", tip_only=True)
+            oracle(url, tag)
+        else:
+            oracle_unstacked(url, tag)
+        return is_stacked
+
+    def break_locks(url):
+        from breezy.controldir import ControlDir
+        from breezy.repository import Repository
+
+        for opener in (lambda: ControlDir.open(url).open_branch(), lambda: ControlDir.open(url).find_repository()):
+            try:
+                opener().break_lock()
+            except Exception:  # noqa: BLE001
+                pass
+
+    host = []
+    unstacked_urls = set()
+
     for op in plan["ops"]:
         kind = op[0]
+        if kind == "policy":
+            how, src_fmt, rev, n = op[1], op[2], op[3], op[4]
+            if not stacked or rev not in have_ids():
+                continue
+            from breezy.controldir import ControlDir
+
+            if not host:
+                url_h = world.new_store("host") + "H/"
+                hd = ControlDir.create(url_h, format=policy_format(fmt))
+                hr = hd.create_repository(shared=True)
+                hr.set_make_working_trees(False)
+                hd.get_config().set_default_stack_on(base_url)
+                host.append(url_h)
+                del hd, hr
+            url_h = host[0]
+            url_p = world.new_store(f"psrc{n}") + "P/"
+            get_transport(url_p).ensure_base()
+            sb = ControlDir.create_branch_convenience(url_p + "src", format=policy_format(src_fmt), force_new_tree=False)
+            ensure_in(sb.repository, [rev], [u for u in stacked if u not in unstacked_urls] + [base_url] + [db3.branch_url(nm) for nm in sorted(db3.wts)])
+            if not sb.repository.has_revision(rev.encode()):
+                continue
+            sb.generate_revision_history(rev.encode())
+            del sb
+            storesim.clear_caches()
+            target = url_h + f"feat{n}"
+            sb = storesim.open_branch(url_p + "src")
+            refused = None
+            try:
+                if how == "clone":
+                    sb.create_clone_on_transport(get_transport(target))
+                elif how == "sprout":
+                    sb.controldir.sprout(target, source_branch=sb)
+                else:
+                    nb = ControlDir.create_branch_convenience(target, format=policy_format(fmt), force_new_tree=False)
+                    sb.push(nb)
+                    del nb
+            except (errors.IncompatibleRepositories, errors.IncompatibleFormat, errors.UnstackableRepositoryFormat) as e:
+                refused = e
+            except Exception as e:  # noqa: BLE001
+                if type(e).__name__ == "UnstackableBranchFormat":
+                    refused = e
+                else:
+                    fail_op("policy:" + how, e, f"creating {target} ({how}) from a {src_fmt} branch at {rev} under a default stacking policy")
+            del sb
+            sim.event("policy", how, src_fmt, rev, "refused" if refused else "ok")
+            if refused is not None:
+                sim.probe("policy_op_refused")
+            try:
+                from breezy.branch import Branch
+
+                Branch.open(target)
+                exists = True
+            except errors.NotBranchError:
+                exists = False
+            if exists:
+                was_stacked = judge_any(target, "after-policy-" + how)
+                if refused is None:
+                    tip = storesim.open_branch(target).last_revision().decode()
+                    if tip != rev:
+                        sim.fail("tip", ["tip", sig, "policy:" + how], f"{target}: tip {tip} != {rev}")
+                    if was_stacked:
+                        stacked.append(target)
+                    sim.probe("policy_" + how + ("_stacked" if was_stacked else "_unstacked") + ("_b6" if src_fmt.endswith("+b6") or src_fmt in ("pack-0.92", "rich-root-pack", "knit") else ""))
+                    touched += 1
+            continue
+        if kind == "unstack":
+            how, fault = op[1], op[2]
+            if not stacked or stk_url in unstacked_urls:
+                continue
+            from breezy import reconfigure
+            from simkit.sim import SimCrash
+
+            for d in (dbb, db3, dbk):
+                d.forget()
+
+            def do_unstack():
+                storesim.clear_caches()
+                b = storesim.open_branch(stk_url)
+                if how == "reconfigure":
+                    reconfigure.ReconfigureUnstacked().apply(b.controldir)
+                else:
+                    b.set_stacked_on_url(None)
+
+            failed = None
+            sim.fault_filter = lambda actor, op_, path, mutating: path.startswith("/K/")
+            sim.arm([fault] if fault else [])
+            try:
+                do_unstack()
+            except SimCrash:
+                raise
+            except Exception as e:  # noqa: BLE001
+                failed = e
+            finally:
+                sim.disarm()
+                sim.fault_filter = None
+            if failed is not None and not sim.faults_fired:
+                fail_op("unstack", failed, "unstacking without any fault")
+            if failed is not None:
+                sim.probe("unstack_failed_under_fault")
+                sim.event("unstack-failed", type(failed).__name__)
+                break_locks(stk_url)
+                still = judge_any(stk_url, "after-failed-unstack")
+                sim.probe("after_failed_unstack_" + ("still_stacked" if still else "unstacked"))
+                try:
+                    do_unstack()
+                except Exception as e:  # noqa: BLE001
+                    fail_op("unstack-retry", e, "retrying the unstack after an injected error")
+            elif sim.faults_fired:
+                # the injected error was swallowed (e.g. while saving branch.conf at unlock):
+                # the call returned normally; whatever state it left must be readable, and a
+                # second, fault-free call must finish the job
+                break_locks(stk_url)
+                still = judge_any(stk_url, "after-absorbed-fault-unstack")
+                if still:
+                    sim.probe("unstack_returned_ok_but_not_persisted_under_fault")
+                    try:
+                        do_unstack()
+                    except Exception as e:  # noqa: BLE001
+                        fail_op("unstack-retry", e, "repeating the unstack after a swallowed injected error")
+            sim.event("unstacked", how)
+            b = storesim.open_branch(stk_url)
+            if b.repository._fallback_repositories:
+                sim.fail("unstacked", ["unstacked", fmt, "still-stacked-after-unstack"], f"set_stacked_on_url(None) returned but the branch still has fallbacks {b.repository._fallback_repositories}")
+            del b
+            oracle_unstacked(stk_url, "after-unstack")
+            unstacked_urls.add(stk_url)
+            stacked.remove(stk_url)
+            touched += 1
+            sim.probe("unstack_" + how)
+            continue
         if kind == "commit":
             where, spec = op[1], op[2]
             ids = have_ids()
